@@ -17,12 +17,21 @@
                         RRoot0 RSelfUnl / IIns / one key left: IDel INkSt IRl IRoot0 ISibRoot IRootSt ISibPar IRUnl IPUnl (collapse) /
                         more keys: YShiftK, YShiftC (per element), YClrC YClrK YN YUnl
    Ghosts abs / seen / res as in YkConc.  Defect switches: UNLOCK_BEFORE_PARENT (the split unlocks its borders before it owns the
-   parent lock), NO_INS_ON_INSERT (interior insert without the inserting mark), NO_INS_ON_DELETE (interior delete without it). *)
+   parent lock), NO_INS_ON_INSERT (interior insert without the inserting mark), NO_INS_ON_DELETE (interior delete without it),
+   SCAN_NO_FINAL (scan_border without the final version check of the border; NOT distinguishable by the invariants while every
+   border holds entries, because the per-entry re-validation subsumes it), SCAN_NO_ENTRY_CHECK (no re-validation per entry; together
+   with SCAN_NO_FINAL = a scan without any re-validation: ScanOK fails).
+   Two other candidate switches turned out to be harmless for forward scans and were dropped (TLC finds no violation): starting a
+   border from a fresh version instead of the handed-over one, and logging the next border's version after the final check (a
+   forward scan reads the next pointer and the content after the version, so a later version only makes it see a later state).
+   scan (full range, collecting (version, node) pairs): SEnter / SNext next pointer / SPermS permutation snapshot / per entry SVal, SChk /
+   SRec / SNv version of the next border / SFin final check (retry from root, retry the border, hand over to the next border) / SRet *)
 EXTENDS Naturals, Sequences, FiniteSets, TLC
 CONSTANTS F, Keys, Threads,
           Prog,            \* [Threads -> [op : {"get", "put", "rem"}, k : Keys, v : value id]]
           Init1, Init2,    \* keys of B1 and B2 (every key of B1 below every key of B2; both non-empty)
-          UNLOCK_BEFORE_PARENT, NO_INS_ON_INSERT, NO_INS_ON_DELETE
+          UNLOCK_BEFORE_PARENT, NO_INS_ON_INSERT, NO_INS_ON_DELETE,
+          SCAN_NO_FINAL, SCAN_NO_ENTRY_CHECK
 ABSENT == 0
 NULL == 0
 NoSlot == 99
@@ -43,14 +52,15 @@ MkBorder(S, pv, nx) == LET n == Cardinality(S) sq == SeqOf(S) IN
                    !.lv = [s \in Slots |-> IF s < n THEN 100 + sq[s + 1] ELSE 0], !.prev = pv, !.next = nx, !.parent = 4]
 EmptyI == [ver |-> V0, n |-> 0, key |-> [i \in 0..(F-1) |-> 0], ch |-> [i \in 0..F |-> NULL], parent |-> NULL]
 L0 == [root |-> 4, cur |-> 4, pv |-> V0, ci |-> 0, child |-> 1, cv |-> V0, b |-> 1, vfb |-> V0, v |-> V0, idx |-> NoSlot, w |-> 0,
-       prevn |-> NULL, pn |-> NULL, i |-> 0, sib |-> NULL, mv |-> 1, nb |-> NULL]
+       prevn |-> NULL, pn |-> NULL, i |-> 0, sib |-> NULL, mv |-> 1, nb |-> NULL, insd |-> FALSE,
+       out |-> <<>>, nv |-> <<>>, snap |-> <<>>, si |-> 1, pushed |-> FALSE, iszo |-> 0, iszn |-> 0, nxt |-> NULL, nxv |-> V0]
 Init == /\ bd = Force([n \in Borders |-> IF n = 1 THEN MkBorder(Init1, NULL, 2) ELSE IF n = 2 THEN MkBorder(Init2, 1, NULL) ELSE EmptyB])
         /\ it = Force([n \in Interiors |-> IF n = 4 THEN [EmptyI EXCEPT !.ver = [V0 EXCEPT !.root = TRUE, !.vi = 1], !.n = 1, !.key[0] = MinOf(Init2), !.ch[0] = 1, !.ch[1] = 2]
                                            ELSE EmptyI])
         /\ rootp = 4 /\ rootlock = FALSE
         /\ pc = [t \in Threads |-> "start"] /\ loc = [t \in Threads |-> L0]
         /\ abs = Force([k \in Keys |-> IF k \in Init1 \cup Init2 THEN 100 + k ELSE ABSENT])
-        /\ seen = [t \in Threads |-> {}] /\ res = [t \in Threads |-> <<>>]
+        /\ seen = [t \in Threads |-> [k \in Keys |-> {}]] /\ res = [t \in Threads |-> <<>>]
 Op(t) == Prog[t]
 InFlight(t) == pc[t] \notin {"start", "done"}
 Lookup(b, p, k) == IF \E i \in 1..Len(p) : bd[b].ks[p[i]] = k THEN p[CHOOSE i \in 1..Len(p) : bd[b].ks[p[i]] = k] ELSE NoSlot
@@ -60,8 +70,8 @@ RemoveSlot(p, s) == SelectSeq(p, LAMBDA x : x # s)
 FreeSlot(p) == CHOOSE s \in Slots : (\A i \in 1..Len(p) : p[i] # s) /\ (\A s2 \in Slots : (\A i \in 1..Len(p) : p[i] # s2) => s <= s2)
 Goto(t, l) == pc' = [pc EXCEPT ![t] = l]
 Commit(k, b) == /\ abs' = [abs EXCEPT ![k] = b]
-                /\ seen' = Force([t \in Threads |-> IF InFlight(t) /\ Op(t).k = k THEN seen[t] \cup {b} ELSE seen[t]])
-Ret(t, r) == res' = [res EXCEPT ![t] = Append(@, [op |-> Op(t).op, k |-> Op(t).k, st |-> r[1], w |-> r[2], sn |-> seen[t]])] /\ Goto(t, "done")
+                /\ seen' = Force([t \in Threads |-> IF InFlight(t) /\ (Op(t).op = "scan" \/ Op(t).k = k) THEN [seen[t] EXCEPT ![k] = @ \cup {b}] ELSE seen[t]])
+Ret(t, r) == res' = [res EXCEPT ![t] = Append(@, [op |-> Op(t).op, k |-> Op(t).k, st |-> r[1], w |-> r[2], sn |-> seen[t], ins |-> loc[t].insd, nv |-> loc[t].nv])] /\ Goto(t, "done")
 VerOf(n) == IF n \in Interiors THEN it[n].ver ELSE bd[n].ver
 ParentOf(n) == IF n \in Interiors THEN it[n].parent ELSE bd[n].parent
 SetBV(n, v) == bd' = [bd EXCEPT ![n].ver = v]
@@ -70,9 +80,10 @@ Keep == F \div 2 + 1
 \* index of the child for key k in interior p (interior_node::get_child_of without the version protocol)
 ChildIdx(p, k) == IF \E i \in 0..(it[p].n - 1) : k < it[p].key[i] THEN CHOOSE i \in 0..(it[p].n - 1) : k < it[p].key[i] /\ \A j \in 0..(i - 1) : ~(k < it[p].key[j])
                   ELSE it[p].n
+AfterFB(t) == IF Op(t).op = "scan" THEN "s_enter" ELSE "lv1"
 SameButLock(a, b) == [a EXCEPT !.lk = FALSE] = [b EXCEPT !.lk = FALSE]
 \* ---------------------------------------------------------------- common: invocation, root load, find_border, get_lv_of
-Start(t) == /\ pc[t] = "start" /\ seen' = [seen EXCEPT ![t] = {abs[Op(t).k]}] /\ loc' = [loc EXCEPT ![t] = L0] /\ Goto(t, "g0")
+Start(t) == /\ pc[t] = "start" /\ seen' = [seen EXCEPT ![t] = [k \in Keys |-> IF Op(t).op = "scan" \/ k = Op(t).k THEN {abs[k]} ELSE {}]] /\ loc' = [loc EXCEPT ![t] = L0] /\ Goto(t, "g0")
             /\ UNCHANGED <<bd, it, rootp, rootlock, abs, res>>
 G0(t) == /\ pc[t] = "g0" /\ loc' = [loc EXCEPT ![t].root = rootp] /\ Goto(t, "fb")
          /\ UNCHANGED <<bd, it, rootp, rootlock, abs, seen, res>>
@@ -80,11 +91,11 @@ FB(t) == /\ pc[t] = "fb" /\ Stable(VerOf(loc[t].root))
          /\ LET r == loc[t].root v == VerOf(r) IN
             IF ~v.root THEN Goto(t, "g0") /\ UNCHANGED loc
             ELSE IF r \in Interiors THEN loc' = [loc EXCEPT ![t].cur = r, ![t].pv = v] /\ Goto(t, "gc1")
-            ELSE loc' = [loc EXCEPT ![t].b = r, ![t].vfb = v] /\ Goto(t, "lv1")
+            ELSE loc' = [loc EXCEPT ![t].b = r, ![t].vfb = v, ![t].iszo = 0, ![t].iszn = 0] /\ Goto(t, AfterFB(t))
          /\ UNCHANGED <<bd, it, rootp, rootlock, abs, seen, res>>
 GC1(t) == /\ pc[t] = "gc1"
           /\ LET p == loc[t].cur IN
-             IF SameButLock(it[p].ver, loc[t].pv) THEN loc' = [loc EXCEPT ![t].ci = ChildIdx(p, Op(t).k)]
+             IF SameButLock(it[p].ver, loc[t].pv) THEN loc' = [loc EXCEPT ![t].ci = ChildIdx(p, IF Op(t).op = "scan" THEN 0 ELSE Op(t).k)]
              ELSE \E c \in 0..F : loc' = [loc EXCEPT ![t].ci = c]
           /\ Goto(t, "gc2") /\ UNCHANGED <<bd, it, rootp, rootlock, abs, seen, res>>
 GC2(t) == /\ pc[t] = "gc2" /\ LET c == it[loc[t].cur].ch[loc[t].ci] IN
@@ -94,7 +105,7 @@ GC3(t) == /\ pc[t] = "gc3" /\ Stable(VerOf(loc[t].child)) /\ loc' = [loc EXCEPT 
           /\ UNCHANGED <<bd, it, rootp, rootlock, abs, seen, res>>
 GC4(t) == /\ pc[t] = "gc4" /\ Stable(it[loc[t].cur].ver)
           /\ LET l == loc[t] pv == it[l.cur].ver IN
-             IF pv = l.pv /\ ~l.cv.del THEN loc' = [loc EXCEPT ![t].b = l.child, ![t].vfb = l.cv] /\ Goto(t, "lv1")
+             IF pv = l.pv /\ ~l.cv.del THEN loc' = [loc EXCEPT ![t].b = l.child, ![t].vfb = l.cv, ![t].iszo = 0, ![t].iszn = 0] /\ Goto(t, AfterFB(t))
              ELSE IF pv.vs # l.pv.vs \/ pv.del THEN Goto(t, "fb") /\ UNCHANGED loc
              ELSE loc' = [loc EXCEPT ![t].pv = pv] /\ Goto(t, "gc1")
           /\ UNCHANGED <<bd, it, rootp, rootlock, abs, seen, res>>
@@ -144,7 +155,8 @@ PSlotAt(t, s) == /\ pc[t] = "p_slot" /\ Len(bd[loc[t].b].perm) < F /\ s \in Slot
                  /\ Goto(t, "p_pub") /\ UNCHANGED <<it, rootp, rootlock, abs, seen, res>>
 PSlot(t) == pc[t] = "p_slot" /\ PSlotAt(t, FreeSlot(bd[loc[t].b].perm))
 PPub(t) == /\ pc[t] = "p_pub" /\ LET b == loc[t].b IN bd' = [bd EXCEPT ![b].perm = InsertAt(@, RankOf(b, @, Op(t).k), loc[t].idx)]
-           /\ Commit(Op(t).k, Op(t).v) /\ Goto(t, "p_unlock") /\ UNCHANGED <<it, rootp, rootlock, loc, res>>
+           /\ loc' = [loc EXCEPT ![t].insd = TRUE]
+           /\ Commit(Op(t).k, Op(t).v) /\ Goto(t, "p_unlock") /\ UNCHANGED <<it, rootp, rootlock, res>>
 PSet(t) == /\ pc[t] = "p_set" /\ bd' = [bd EXCEPT ![loc[t].b].lv[loc[t].idx] = Op(t).v] /\ Commit(Op(t).k, Op(t).v)
            /\ Goto(t, "p_unlock") /\ UNCHANGED <<it, rootp, rootlock, loc, res>>
 PUnlock(t) == /\ pc[t] = "p_unlock" /\ SetBV(loc[t].b, Unl(bd[loc[t].b].ver)) /\ Ret(t, <<"OK", 0>>)
@@ -178,7 +190,8 @@ S7aAt(t, s) == /\ pc[t] = "s7a"
 S7a(t) == pc[t] = "s7a" /\ S7aAt(t, FreeSlot(bd[IF Op(t).k < bd[3].ks[0] THEN loc[t].b ELSE 3].perm))
 S7b(t) == /\ pc[t] = "s7b"
           /\ LET side == loc[t].sib IN bd' = [bd EXCEPT ![side].perm = InsertAt(@, RankOf(side, @, Op(t).k), loc[t].idx)]
-          /\ Commit(Op(t).k, Op(t).v) /\ Goto(t, IF UNLOCK_BEFORE_PARENT THEN "u1" ELSE "lp_ld") /\ UNCHANGED <<it, rootp, rootlock, loc, res>>
+          /\ loc' = [loc EXCEPT ![t].insd = TRUE]
+          /\ Commit(Op(t).k, Op(t).v) /\ Goto(t, IF UNLOCK_BEFORE_PARENT THEN "u1" ELSE "lp_ld") /\ UNCHANGED <<it, rootp, rootlock, res>>
 \* defect switch: the borders are unlocked before the parent is owned
 U1(t) == /\ pc[t] = "u1" /\ SetBV(loc[t].b, Unl(bd[loc[t].b].ver)) /\ Goto(t, "u2") /\ UNCHANGED <<it, rootp, rootlock, loc, abs, seen, res>>
 U2(t) == /\ pc[t] = "u2" /\ SetBV(3, Unl(bd[3].ver)) /\ Goto(t, "lp_ld") /\ UNCHANGED <<it, rootp, rootlock, loc, abs, seen, res>>
@@ -338,7 +351,48 @@ IRUnl(t) == /\ pc[t] = "i_runl" /\ rootlock' = FALSE /\ Goto(t, "i_punl")
             /\ UNCHANGED <<bd, it, rootp, loc, abs, seen, res>>
 IPUnl(t) == /\ pc[t] = "i_punl" /\ SetIV(loc[t].pn, Unl(it[loc[t].pn].ver)) /\ Ret(t, <<"OK", 0>>)
             /\ UNCHANGED <<bd, rootp, rootlock, loc, abs, seen>>
-Step(t) == Start(t) \/ G0(t) \/ FB(t) \/ GC1(t) \/ GC2(t) \/ GC3(t) \/ GC4(t) \/ LV1(t) \/ PermLd(t) \/ LV2(t) \/ GVal(t) \/ GFc(t)
+\* ---------------------------------------------------------------- scan of the whole key range collecting (version, node) pairs
+\* (interface_scan.h scan loop, scan_helper.h scan_border / scan_check_retry; forward, INF endpoints, no size limit)
+Cut(sq, n) == SubSeq(sq, 1, n)
+\* loop head of interface_scan: an empty tree (deleted root border) is reported with the root's pair only
+SEnter(t) == /\ pc[t] = "s_enter" /\ LET l == loc[t] IN
+                IF l.vfb.del /\ l.vfb.root THEN loc' = [loc EXCEPT ![t].nv = <<<<l.vfb, l.b>>>>] /\ Goto(t, "s_ret")
+                ELSE loc' = [loc EXCEPT ![t].iszo = Len(l.out), ![t].iszn = Len(l.nv),
+                                        ![t].vfb = l.vfb] /\ Goto(t, "s_next")
+             /\ UNCHANGED <<bd, it, rootp, rootlock, abs, seen, res>>
+SRet(t) == /\ pc[t] = "s_ret" /\ Ret(t, <<"OK", loc[t].out>>) /\ UNCHANGED <<bd, it, rootp, rootlock, loc, abs, seen>>
+\* retry: label of scan_border: the next pointer is logged first, then the permutation snapshot
+SNext(t) == /\ pc[t] = "s_next" /\ loc' = [loc EXCEPT ![t].nxt = bd[loc[t].b].next, ![t].pushed = FALSE] /\ Goto(t, "s_perm")
+            /\ UNCHANGED <<bd, it, rootp, rootlock, abs, seen, res>>
+SPermS(t) == /\ pc[t] = "s_perm" /\ loc' = [loc EXCEPT ![t].snap = bd[loc[t].b].perm, ![t].si = 1]
+             /\ Goto(t, IF Len(bd[loc[t].b].perm) = 0 THEN "s_rec" ELSE "s_val") /\ UNCHANGED <<bd, it, rootp, rootlock, abs, seen, res>>
+SVal(t) == /\ pc[t] = "s_val" /\ loc' = [loc EXCEPT ![t].w = bd[loc[t].b].lv[loc[t].snap[loc[t].si]], ![t].idx = loc[t].snap[loc[t].si]] /\ Goto(t, "s_chk")
+           /\ UNCHANGED <<bd, it, rootp, rootlock, abs, seen, res>>
+SChk(t) == /\ pc[t] = "s_chk" /\ Stable(bd[loc[t].b].ver)
+           /\ LET l == loc[t] ver == bd[l.b].ver IN
+              IF ver # l.vfb /\ ~SCAN_NO_ENTRY_CHECK THEN
+                 IF ver.vs # l.vfb.vs \/ ver.del THEN loc' = [loc EXCEPT ![t].out = <<>>, ![t].nv = <<>>] /\ Goto(t, "g0")
+                 ELSE loc' = [loc EXCEPT ![t].vfb = ver, ![t].out = Cut(l.out, l.iszo), ![t].nv = Cut(l.nv, l.iszn)] /\ Goto(t, "s_next")
+              ELSE IF l.w = 0 THEN loc' = [loc EXCEPT ![t].out = Cut(l.out, l.iszo), ![t].nv = Cut(l.nv, l.iszn)] /\ Goto(t, "s_next")
+              ELSE /\ loc' = [loc EXCEPT ![t].out = Append(l.out, <<bd[l.b].ks[l.idx], l.w>>), ![t].si = l.si + 1, ![t].pushed = TRUE,
+                                         ![t].nv = IF l.pushed THEN l.nv ELSE Append(l.nv, <<l.vfb, l.b>>)]
+                   /\ Goto(t, IF l.si = Len(l.snap) THEN "s_rec" ELSE "s_val")
+           /\ UNCHANGED <<bd, it, rootp, rootlock, abs, seen, res>>
+\* a border that contributed nothing is recorded as well
+SRec(t) == /\ pc[t] = "s_rec" /\ loc' = [loc EXCEPT ![t].nv = IF loc[t].pushed THEN loc[t].nv ELSE Append(loc[t].nv, <<loc[t].vfb, loc[t].b>>), ![t].pushed = TRUE]
+           /\ Goto(t, IF loc[t].nxt = NULL THEN "s_fin" ELSE "s_nv") /\ UNCHANGED <<bd, it, rootp, rootlock, abs, seen, res>>
+\* the version of the next border is logged BEFORE the final check of this one
+SNv(t) == /\ pc[t] = "s_nv" /\ Stable(bd[loc[t].nxt].ver) /\ loc' = [loc EXCEPT ![t].nxv = bd[loc[t].nxt].ver] /\ Goto(t, "s_fin")
+          /\ UNCHANGED <<bd, it, rootp, rootlock, abs, seen, res>>
+SFin(t) == /\ pc[t] = "s_fin" /\ Stable(bd[loc[t].b].ver)
+           /\ LET l == loc[t] ver == bd[l.b].ver IN
+              IF ver # l.vfb /\ ~SCAN_NO_FINAL THEN
+                 IF ver.vs # l.vfb.vs \/ ver.del THEN loc' = [loc EXCEPT ![t].out = <<>>, ![t].nv = <<>>] /\ Goto(t, "g0")
+                 ELSE loc' = [loc EXCEPT ![t].vfb = ver, ![t].out = Cut(l.out, l.iszo), ![t].nv = Cut(l.nv, l.iszn)] /\ Goto(t, "s_next")
+              ELSE IF l.nxt = NULL THEN Goto(t, "s_ret") /\ UNCHANGED loc
+              ELSE loc' = [loc EXCEPT ![t].b = l.nxt, ![t].vfb = l.nxv] /\ Goto(t, "s_enter")
+           /\ UNCHANGED <<bd, it, rootp, rootlock, abs, seen, res>>
+Step(t) == SEnter(t) \/ SRet(t) \/ SNext(t) \/ SPermS(t) \/ SVal(t) \/ SChk(t) \/ SRec(t) \/ SNv(t) \/ SFin(t) \/ Start(t) \/ G0(t) \/ FB(t) \/ GC1(t) \/ GC2(t) \/ GC3(t) \/ GC4(t) \/ LV1(t) \/ PermLd(t) \/ LV2(t) \/ GVal(t) \/ GFc(t)
            \/ RFc0(t) \/ Lock(t) \/ Chk(t) \/ PUndel(t) \/ PSlot(t) \/ PPub(t) \/ PSet(t) \/ PUnlock(t)
            \/ S1(t) \/ S3a(t) \/ S3(t) \/ S3b(t) \/ SMove(t) \/ SPerm(t) \/ S6(t) \/ S7a(t) \/ S7b(t) \/ U1(t) \/ U2(t)
            \/ LpLd(t) \/ SRl(t) \/ SRl2(t) \/ LpL(t) \/ LpC(t) \/ N1a(t) \/ N1b(t) \/ N1c(t) \/ N2(t) \/ N3(t) \/ N4(t) \/ N5(t) \/ N6(t)
@@ -352,11 +406,27 @@ Next == (\E t \in Threads : Step(t)) \/ (AllDone /\ UNCHANGED vars)
 Spec == Init /\ [][Next]_vars
 FairSpec == Spec /\ \A t \in Threads : WF_vars(Step(t))
 \* ---------------------------------------------------------------- properties
-ResOK(r) == IF r.op = "get" /\ r.st = "NOT_EXIST" THEN ABSENT \in r.sn
-            ELSE IF r.op = "get" THEN r.w # 0 /\ r.w \in r.sn
-            ELSE IF r.op = "rem" /\ r.st = "NOT_FOUND" THEN ABSENT \in r.sn
+ResOK(r) == IF r.op = "get" /\ r.st = "NOT_EXIST" THEN ABSENT \in r.sn[r.k]
+            ELSE IF r.op = "get" THEN r.w # 0 /\ r.w \in r.sn[r.k]
+            ELSE IF r.op = "rem" /\ r.st = "NOT_FOUND" THEN ABSENT \in r.sn[r.k]
             ELSE TRUE
 LinOK == \A t \in Threads : \A i \in 1..Len(res[t]) : ResOK(res[t][i])
+\* C04: a scan is strictly ascending, every returned pair was current at some instant of the scan with a non-null value, every
+\* key it did not return was absent at some instant of the scan
+OutKeys(out) == {out[i][1] : i \in 1..Len(out)}
+ScanResOK(r) == LET out == r.w IN
+                /\ \A i \in 1..(Len(out) - 1) : out[i][1] < out[i + 1][1]
+                /\ \A i \in 1..Len(out) : out[i][2] # 0 /\ out[i][2] \in r.sn[out[i][1]]
+                /\ \A k \in Keys : k \notin OutKeys(out) => ABSENT \in r.sn[k]
+ScanOK == \A t \in Threads : \A i \in 1..Len(res[t]) : res[t][i].op = "scan" => ScanResOK(res[t][i])
+\* C05 / C06: the collected set is never empty, and once everything has completed every insert of a new key is either in the
+\* scan's result or has left a collected (version, node) pair stale
+NvOK == AllDone => \A t \in Threads : \A i \in 1..Len(res[t]) : res[t][i].op = "scan" =>
+           LET r == res[t][i] IN
+           /\ Len(r.nv) >= 1
+           /\ \A t2 \in Threads : \A j \in 1..Len(res[t2]) : (res[t2][j].op = "put" /\ res[t2][j].ins) =>
+                  \/ res[t2][j].k \in OutKeys(r.w)
+                  \/ \E q \in 1..Len(r.nv) : VerOf(r.nv[q][2]) # r.nv[q][1]
 \* the collapse and the creation of a new root happen under the root lock, on the node that is the root
 RootOpsOK == /\ \A t \in Threads : pc[t] \in {"i_root0", "i_sibroot", "i_rootst"} => rootp = loc[t].pn /\ rootlock
              /\ \A t \in Threads : pc[t] \in {"n1a", "n1b", "n1c", "n2", "n3", "n4"} => rootp = loc[t].b /\ rootlock
